@@ -6,7 +6,7 @@ CONSTANT Strict
 OptSeqs == { <<>>, <<"-q">>, <<"-u", "--brief">>, <<"--">>, <<"-s", "--">>, <<"--help">>, <<"-q", "--version">>, <<"--he">> }
 Names1  == { "@1.xz", "@1", "@1.gz", "@1.tbz2", "@1.txz", "@1-lzma", "@1.lz", "@1.tgz", "@1.tlz", "@1.txt", "-", "@1.Z", "@1.tbz" }
 Names2  == { "@2.xz", "@2", "@2.bz2", "-", "@2.tlz" }
-OpLists == {<<>>} \cup {<<a>> : a \in Names1} \cup {<<a, b>> : a \in Names1, b \in Names2} \cup {<<"@1.xz", "@2", "@3">>}
+OpLists == IF Strict THEN {<<"@1.xz", "-">>, <<"@1", "-">>, <<"-", "@2.xz">>} ELSE {<<>>} \cup {<<a>> : a \in Names1} \cup {<<a, b>> : a \in Names1, b \in Names2} \cup {<<"@1.xz", "@2", "@3">>}
 Conds   == {"ok", "plain", "missing", "corrupt", "late", "pipe", "kill"}
 OSt     == [cond : Conds, c : {"A", "B"}]
 SinSt   == [cond : {"ok", "plain"}, c : {"A", "B"}]
